@@ -88,22 +88,22 @@ fn str_batch() -> [String; 3] {
 
 // ---- OwnedRegion<u8>
 // @h prop=C17 tier=quick kind=proof inst="OwnedRegion<u8>" bounds="batch of 3 items (2, 0, 3 symbolic bytes); reserve_regions on an empty target" desc="capacities constant while the announced contents are pushed"
-#[cfg_attr(kani, kani::proof, kani::unwind(6))]
+#[cfg_attr(kani, kani::proof, kani::unwind(10))]
 pub fn c17_owned_reserve_regions() {
     presized!(OwnedRegion<u8>, How::ReserveRegions, false, byte_batch(), |r, v| r.push(v.as_slice()));
 }
 // @h prop=C17 tier=quick kind=proof inst="OwnedRegion<u8>" bounds="as above, target already populated with one item" desc="pre-sizing a populated region"
-#[cfg_attr(kani, kani::proof, kani::unwind(6))]
+#[cfg_attr(kani, kani::proof, kani::unwind(10))]
 pub fn c17_owned_reserve_regions_populated() {
     presized!(OwnedRegion<u8>, How::ReserveRegions, true, byte_batch(), |r, v| r.push(v.as_slice()));
 }
 // @h prop=C17 tier=quick kind=proof inst="OwnedRegion<u8>" bounds="batch of 3 items; target = merge_regions(source)" desc="merged region absorbs its source's contents without reallocation"
-#[cfg_attr(kani, kani::proof, kani::unwind(6))]
+#[cfg_attr(kani, kani::proof, kani::unwind(10))]
 pub fn c17_owned_merge() {
     presized!(OwnedRegion<u8>, How::MergeRegions, false, byte_batch(), |r, v| r.push(v.as_slice()));
 }
 // @h prop=C17 tier=quick kind=proof inst="OwnedRegion<u8> reserve_items" bounds="batch of 3 items (2, 0, 3 symbolic bytes) announced with reserve_items, on an empty and on a populated target" desc="capacities constant while the announced items are pushed"
-#[cfg_attr(kani, kani::proof, kani::unwind(6))]
+#[cfg_attr(kani, kani::proof, kani::unwind(10))]
 pub fn c17_owned_reserve_items() {
     let batch = byte_batch();
     let mut t = OwnedRegion::<u8>::default();
@@ -120,7 +120,7 @@ pub fn c17_owned_reserve_items() {
 
 // ---- StringRegion
 // @h prop=C17 tier=quick kind=proof inst="StringRegion" bounds="batch of 3 strings (5, 0, 4 bytes); reserve_regions / merge_regions / reserve_items" desc="capacities constant while the announced strings are pushed"
-#[cfg_attr(kani, kani::proof, kani::unwind(8))]
+#[cfg_attr(kani, kani::proof, kani::unwind(10))]
 pub fn c17_string() {
     presized!(StringRegion, How::ReserveRegions, true, str_batch(), |r, v| r.push(v.as_str()));
     presized!(StringRegion, How::MergeRegions, false, str_batch(), |r, v| r.push(v.as_str()));
@@ -137,17 +137,17 @@ pub fn c17_string() {
 
 // ---- SliceRegion<MirrorRegion<u8>>
 // @h prop=C17 tier=quick kind=proof inst="SliceRegion<MirrorRegion<u8>>" bounds="batch of 3 slices (2, 0, 3 elements); reserve_regions on a populated target" desc="offset vector pre-sized"
-#[cfg_attr(kani, kani::proof, kani::unwind(6))]
+#[cfg_attr(kani, kani::proof, kani::unwind(10))]
 pub fn c17_slice_reserve_regions() {
     presized!(SliceRegion<MirrorRegion<u8>>, How::ReserveRegions, true, byte_batch(), |r, v| r.push(v.as_slice()));
 }
 // @h prop=C17 tier=quick kind=proof inst="SliceRegion<MirrorRegion<u8>>" bounds="batch of 3 slices (2, 0, 3 elements); target = merge_regions(source)" desc="merged slice region absorbs its source's contents without reallocating its offset vector"
-#[cfg_attr(kani, kani::proof, kani::unwind(6))]
+#[cfg_attr(kani, kani::proof, kani::unwind(10))]
 pub fn c17_slice_merge() {
     presized!(SliceRegion<MirrorRegion<u8>>, How::MergeRegions, false, byte_batch(), |r, v| r.push(v.as_slice()));
 }
 // @h prop=C17 tier=quick kind=proof inst="SliceRegion<MirrorRegion<u8>> reserve_items" bounds="batch of 3 slices announced with reserve_items" desc="capacities constant while the announced slices are pushed"
-#[cfg_attr(kani, kani::proof, kani::unwind(6))]
+#[cfg_attr(kani, kani::proof, kani::unwind(10))]
 pub fn c17_slice_reserve_items() {
     let batch = byte_batch();
     let mut t = SliceRegion::<MirrorRegion<u8>>::default();
@@ -163,7 +163,7 @@ pub fn c17_slice_reserve_items() {
 
 // ---- SliceRegion<StringRegion> (nested storage)
 // @h prop=C17 tier=quick kind=proof inst="SliceRegion<StringRegion>" bounds="batch of 2 rows ([s(2),s(3)], [s(1)]); merge_regions and reserve_regions" desc="offsets and string bytes both pre-sized"
-#[cfg_attr(kani, kani::proof, kani::unwind(8))]
+#[cfg_attr(kani, kani::proof, kani::unwind(10))]
 pub fn c17_slice_of_strings() {
     let mk = || [vec![string_shaped(&[2]), string_shaped(&[3])], vec![string_shaped(&[1])]];
     presized!(SliceRegion<StringRegion>, How::MergeRegions, false, mk(), |r, v| r.push(v));
@@ -172,21 +172,21 @@ pub fn c17_slice_of_strings() {
 
 // ---- Option / Result / Tuple
 // @h prop=C17 tier=quick kind=proof inst="OptionRegion<StringRegion>" bounds="batch Some(5 bytes), None, Some(4 bytes) (skewed mixes by position); merge_regions and reserve_regions" desc="inner string storage pre-sized for the Some values only"
-#[cfg_attr(kani, kani::proof, kani::unwind(8))]
+#[cfg_attr(kani, kani::proof, kani::unwind(10))]
 pub fn c17_option() {
     let mk = || [Some(string_shaped(&[2, 3])), None, Some(string_shaped(&[4]))];
     presized!(OptionRegion<StringRegion>, How::MergeRegions, false, mk(), |r, v| r.push(v));
     presized!(OptionRegion<StringRegion>, How::ReserveRegions, true, mk(), |r, v| r.push(v));
 }
 // @h prop=C17 tier=quick kind=proof inst="ResultRegion<StringRegion, StringRegion>" bounds="batch Ok(5 bytes), Err(3 bytes), Err(4 bytes); merge_regions and reserve_regions" desc="both sides pre-sized"
-#[cfg_attr(kani, kani::proof, kani::unwind(8))]
+#[cfg_attr(kani, kani::proof, kani::unwind(10))]
 pub fn c17_result() {
     let mk = || -> [Result<String, String>; 3] { [Ok(string_shaped(&[2, 3])), Err(string_shaped(&[3])), Err(string_shaped(&[4]))] };
     presized!(ResultRegion<StringRegion, StringRegion>, How::MergeRegions, false, mk(), |r, v| r.push(v));
     presized!(ResultRegion<StringRegion, StringRegion>, How::ReserveRegions, false, mk(), |r, v| r.push(v));
 }
 // @h prop=C17 tier=quick kind=proof inst="TupleABRegion<StringRegion, OwnedRegion<u8>>" bounds="batch of 2 tuples; merge_regions and reserve_regions" desc="every field pre-sized"
-#[cfg_attr(kani, kani::proof, kani::unwind(8))]
+#[cfg_attr(kani, kani::proof, kani::unwind(10))]
 pub fn c17_tuple() {
     let mk = || [(string_shaped(&[2, 3]), Bytes::<3>::any_len(2).to_vec()), (string_shaped(&[1]), Bytes::<3>::any_len(3).to_vec())];
     presized!(TupleABRegion<StringRegion, OwnedRegion<u8>>, How::MergeRegions, false, mk(), |r, v| r.push(v));
@@ -195,7 +195,7 @@ pub fn c17_tuple() {
 
 // ---- Vec<u8> as region
 // @h prop=C17 tier=quick kind=proof inst="Vec<u8> as region" bounds="batch of 3 symbolic elements; merge_regions, reserve_regions, reserve_items" desc="plain vector region pre-sized"
-#[cfg_attr(kani, kani::proof, kani::unwind(6))]
+#[cfg_attr(kani, kani::proof, kani::unwind(10))]
 pub fn c17_vec_region() {
     let mk = || sym::bytes::<3>();
     presized!(Vec<u8>, How::MergeRegions, false, mk(), |r, v| Push::push(r, v));
@@ -213,7 +213,7 @@ pub fn c17_vec_region() {
 
 // ---- FlatStack
 // @h prop=C17 tier=quick kind=proof inst="FlatStack<OwnedRegion<u8>, Vec<(usize,usize)>>::merge_capacity" bounds="source stack of 3 items (2, 0, 3 bytes); target = merge_capacity(source); the same 3 items copied" desc="index vector and region both pre-sized: no capacity changes"
-#[cfg_attr(kani, kani::proof, kani::unwind(6))]
+#[cfg_attr(kani, kani::proof, kani::unwind(10))]
 pub fn c17_flatstack_merge_capacity() {
     let batch = byte_batch();
     let mut src = FlatStack::<OwnedRegion<u8>>::default();
